@@ -2224,7 +2224,10 @@ const INLINE_PROPERTY_CAPACITY: usize = 2;
 ///
 /// Most JavaScript objects have only a few properties. By storing up to 2 properties
 /// inline (without heap allocation), we avoid the overhead of a HashMap for common cases.
-/// When the object grows beyond 2 properties, we transparently switch to a HashMap.
+/// When the object grows beyond 2 properties, we transparently switch to an insertion-ordered map.
+///
+/// Enumeration order is the ECMAScript one: integer keys ascending, then the other keys in
+/// the order they were added (a deleted and re-added key goes to the end).
 #[derive(Debug)]
 pub enum PropertyStorage {
     /// Inline storage for small objects (≤2 properties).
@@ -2233,8 +2236,8 @@ pub enum PropertyStorage {
         len: u8,
         entries: [(PropertyKey, Property); INLINE_PROPERTY_CAPACITY],
     },
-    /// HashMap storage for larger objects.
-    Map(FxHashMap<PropertyKey, Property>),
+    /// Ordered map storage for larger objects.
+    Map(IndexMap<PropertyKey, Property>),
 }
 
 impl Default for PropertyStorage {
@@ -2262,7 +2265,7 @@ impl PropertyStorage {
         if capacity <= INLINE_PROPERTY_CAPACITY {
             Self::new()
         } else {
-            PropertyStorage::Map(FxHashMap::with_capacity_and_hasher(
+            PropertyStorage::Map(IndexMap::with_capacity_and_hasher(
                 capacity,
                 Default::default(),
             ))
@@ -2310,6 +2313,25 @@ impl PropertyStorage {
         }
     }
 
+    /// Position a new key has to take so that integer keys stay first, in ascending order
+    fn position_for<'a>(
+        key: &PropertyKey,
+        existing: impl Iterator<Item = &'a PropertyKey>,
+    ) -> Option<usize> {
+        let PropertyKey::Index(new_idx) = key else {
+            // a string or symbol key goes to the end
+            return None;
+        };
+        let mut pos = 0;
+        for k in existing {
+            match k {
+                PropertyKey::Index(i) if i < new_idx => pos += 1,
+                _ => break,
+            }
+        }
+        Some(pos)
+    }
+
     /// Insert or update a property. Returns the old value if the key existed.
     pub fn insert(&mut self, key: PropertyKey, value: Property) -> Option<Property> {
         match self {
@@ -2324,15 +2346,31 @@ impl PropertyStorage {
                     }
                 }
 
+                let position = Self::position_for(
+                    &key,
+                    entries
+                        .get(..current_len)
+                        .unwrap_or_default()
+                        .iter()
+                        .map(|e| &e.0),
+                )
+                .unwrap_or(current_len);
+
                 // Key doesn't exist - try to add inline
-                if let Some(slot) = entries.get_mut(current_len) {
-                    *slot = (key, value);
+                if current_len < INLINE_PROPERTY_CAPACITY {
+                    if let Some(slot) = entries.get_mut(current_len) {
+                        *slot = (key, value);
+                    }
+                    // move the new entry from the end to its position
+                    if let Some(tail) = entries.get_mut(position..=current_len) {
+                        tail.rotate_right(1);
+                    }
                     *len += 1;
                     return None;
                 }
 
                 // Need to convert to Map (current_len == INLINE_PROPERTY_CAPACITY)
-                let mut map = FxHashMap::with_capacity_and_hasher(
+                let mut map = IndexMap::with_capacity_and_hasher(
                     INLINE_PROPERTY_CAPACITY + 1,
                     Default::default(),
                 );
@@ -2343,11 +2381,19 @@ impl PropertyStorage {
                     );
                     map.insert(k, v);
                 }
-                map.insert(key, value);
+                map.shift_insert(position, key, value);
                 *self = PropertyStorage::Map(map);
                 None
             }
-            PropertyStorage::Map(map) => map.insert(key, value),
+            PropertyStorage::Map(map) => {
+                if let Some(existing) = map.get_mut(&key) {
+                    return Some(mem::replace(existing, value));
+                }
+                match Self::position_for(&key, map.keys()) {
+                    Some(position) => map.shift_insert(position, key, value),
+                    None => map.insert(key, value),
+                }
+            }
         }
     }
 
@@ -2394,8 +2440,9 @@ impl PropertyStorage {
                     } else {
                         return None;
                     };
-                    if i < current_len - 1 {
-                        entries.swap(i, current_len - 1);
+                    // close the gap, keeping the order of the remaining entries
+                    if let Some(tail) = entries.get_mut(i..current_len) {
+                        tail.rotate_left(1);
                     }
                     *len -= 1;
                     Some(removed.1)
@@ -2403,7 +2450,7 @@ impl PropertyStorage {
                     None
                 }
             }
-            PropertyStorage::Map(map) => map.remove(key),
+            PropertyStorage::Map(map) => map.shift_remove(key),
         }
     }
 
@@ -2480,10 +2527,7 @@ pub enum PropertyStorageIter<'a> {
         index: usize,
         len: usize,
     },
-    #[cfg(feature = "std")]
-    Map(std::collections::hash_map::Iter<'a, PropertyKey, Property>),
-    #[cfg(not(feature = "std"))]
-    Map(hashbrown::hash_map::Iter<'a, PropertyKey, Property>),
+    Map(indexmap::map::Iter<'a, PropertyKey, Property>),
 }
 
 impl<'a> Iterator for PropertyStorageIter<'a> {
@@ -2514,10 +2558,7 @@ pub enum PropertyStorageIterMut<'a> {
     Inline {
         entries: &'a mut [(PropertyKey, Property)],
     },
-    #[cfg(feature = "std")]
-    Map(std::collections::hash_map::IterMut<'a, PropertyKey, Property>),
-    #[cfg(not(feature = "std"))]
-    Map(hashbrown::hash_map::IterMut<'a, PropertyKey, Property>),
+    Map(indexmap::map::IterMut<'a, PropertyKey, Property>),
 }
 
 impl<'a> Iterator for PropertyStorageIterMut<'a> {
